@@ -435,14 +435,14 @@ theorem firstGroup_ne_nil (cs : List Cand) (hne : cs ≠ []) : firstGroup cs ≠
 
 end
 
-/-- C02 for a key whose run-time types are plain classes -/
-theorem pure_agrees (cfg : Cfg) (ms : List Meth) (wf : cfg.H.WF) (anti : cfg.H.Antisym)
+/-- C02 for a key whose run-time types are plain classes (the call without arguments, `k = []`, included) -/
+theorem pure_agrees_all (cfg : Cfg) (ms : List Meth) (wf : cfg.H.WF) (anti : cfg.H.Antisym)
     (hid : (ms.map (·.id)).Nodup) (hst : staticTable ms = true)
-    (k : Key) (hkc : ∀ e ∈ k, e.2.isCls = true) (hne : k ≠ [])
+    (k : Key) (hkc : ∀ e ∈ k, e.2.isCls = true)
     (hcc : candComparable cfg.H ms k = true) (htie : sigTieOK cfg.H ms k = true) :
     specAgrees (pureLookup (plan cfg ms) (none, k)) (specResolve cfg.H ms k) := by
   have slots : ∀ e ∈ k, SlotOK cfg ms e := fun e he => slotOK_of_cls cfg ms wf anti hst e (hkc e he)
-  obtain ⟨cs, hcs, ok⟩ := candidates_ok cfg ms hid k hne slots
+  obtain ⟨cs, hcs, ok⟩ := candidates_ok_all cfg ms hid k slots
   have X : Ctx cfg ms k cs := ⟨wf, hid, slots, ok, hcc, htie⟩
   have hplan : plan cfg ms k =
       { ranks := mkRanks ms (ranks cs), allCodes := (sortCands cs).filterMap (fun c => codeOf ms c.id) } := by
@@ -523,5 +523,13 @@ theorem pure_agrees (cfg : Cfg) (ms : List Meth) (wf : cfg.H.WF) (anti : cfg.H.A
         exact absurd hw (hnw w)
       · rw [hapne]
         trivial
+
+/-- C02 for a non-empty key whose run-time types are plain classes -/
+theorem pure_agrees (cfg : Cfg) (ms : List Meth) (wf : cfg.H.WF) (anti : cfg.H.Antisym)
+    (hid : (ms.map (·.id)).Nodup) (hst : staticTable ms = true)
+    (k : Key) (hkc : ∀ e ∈ k, e.2.isCls = true) (_hne : k ≠ [])
+    (hcc : candComparable cfg.H ms k = true) (htie : sigTieOK cfg.H ms k = true) :
+    specAgrees (pureLookup (plan cfg ms) (none, k)) (specResolve cfg.H ms k) :=
+  pure_agrees_all cfg ms wf anti hid hst k hkc hcc htie
 
 end Ovld
